@@ -317,7 +317,60 @@ def hMpzLine : Handler
       | .error e => toString e)
   | _ => none
 
+/-! ### well-formedness: the hypothesis of the round-trip theorems, decided for the harness's objects -/
+
+def permOk (idx : List Nat) : Bool :=
+  (List.range idx.length).all (fun i => idx.contains i) && idx.all (· < idx.length)
+
+/-- io2.wf <type> [params] <fields…> => 1|0 -/
+def hWf : Handler
+  | "tcard" :: [k, w, z] => do
+    let k ← pNat k; let w ← pNat w; let z ← pIntList z
+    some (showBool (decide (TCard.wf ⟨k, w, z⟩)))
+  | "tsecret" :: [k, w, z] => do
+    let k ← pNat k; let w ← pNat w; let z ← pIntList z
+    some (showBool (decide (TSecret.wf ⟨k, w, pairUp z⟩) && z.length % 2 == 0))
+  | "tstack" :: [s] => do
+    let l ← pList s; let cs ← l.mapM pSlashCard
+    some (showBool (decide (0 < cs.length ∧ cs.length ≤ Gen.TMCG_MAX_CARDS ∧ ∀ c ∈ cs, c.wf)))
+  | "tsts" :: [s] => do
+    let l ← pList s; let cs ← l.mapM pSlashSecret
+    some (showBool (decide (0 < cs.length ∧ cs.length ≤ Gen.TMCG_MAX_CARDS ∧ ∀ e ∈ cs, e.2.wf) &&
+      permOk (cs.map Prod.fst)))
+  | "pub" :: a => do let K ← pPub a; some (showBool (decide (pubFieldsOk K)))
+  | "publine" :: a => do let K ← pPub a; some (showBool (decide (pubLineOk K)))
+  | "sec" :: a => do let K ← pSec a; some (showBool (decide (secFieldsOk K)))
+  | "vtmf" :: a => do let G ← pGrp4 a; some (showBool (decide (VtmfGroup.wf ⟨G.p, G.q, G.g, G.h⟩)))
+  | "qr" :: e :: a => do
+    let e ← pNat e; let G ← pGrp4 a
+    let V : VtmfGroup := ⟨G.p, G.q, G.g, G.h⟩
+    some (showBool (decide V.wf && (match qrGenerator V.p e with | .ok g => g == V.g | .error _ => false)))
+  | "com" :: n :: a => do
+    let n ← pNat n; let C ← pCom a
+    some (showBool (decide (C.wf ∧ C.g.length = n)))
+  | "skc" :: n :: a => do
+    let n ← pNat n; let C ← pCom a
+    some (showBool (decide (C.wf ∧ C.g.length = n)))
+  | "trap" :: [p, q, k, g, h] => do
+    let p ← pInt p; let q ← pInt q; let k ← pInt k; let g ← pInt g; let h ← pInt h
+    some (showBool (decide (PedTrap.wf ⟨p, q, k, g, h⟩)))
+  | "vrhe" :: a => do let G ← pGrp4 a; some (showBool (decide G.wf))
+  | "eotp" :: [p, q, g] => do
+    let p ← pInt p; let q ← pInt q; let g ← pInt g
+    some (showBool (decide (Grp3.wf ⟨p, q, g⟩)))
+  | "vsshe" :: n :: [p, q, g, h, cp, cq, ck, ch, cg] => do
+    let n ← pNat n; let G ← pGrp4 [p, q, g, h]; let C ← pCom [cp, cq, ck, ch, cg]
+    some (showBool (decide (Vsshe.wf ⟨G, C⟩ ∧ C.g.length = n)))
+  | "vss" :: a => do let V ← pVss a; some (showBool (decide V.wf))
+  | "gdkg" :: a => do let D ← pGDkg a; some (showBool (decide D.wf))
+  | "rvss" :: a => do let R ← pRvss false a; some (showBool (decide (R.wf false)))
+  | "zvss" :: a => do let R ← pRvss true a; some (showBool (decide (R.wf true)))
+  | "cdkg" :: a => do let D ← pCDkg a; some (showBool (decide D.wf))
+  | "dss" :: a => do let D ← pDss a; some (showBool (decide D.wf))
+  | _ => none
+
 def handlers : List (String × Handler) := [
+  ("io2.wf", hWf),
   ("io2.tcard.export", hTCardExport), ("io2.tcard.import", hTCardImport),
   ("io2.tsecret.export", hTSecretExport), ("io2.tsecret.import", hTSecretImport),
   ("io2.tstack.export", hTStackExport), ("io2.tstack.import", hTStackImport),
